@@ -43,6 +43,11 @@ def replay(d):
         p = float(num(d['p'])) if 'p' in d else None
         if d.get('on_curve') == 'sat': p = T.sat(t)
         elif d.get('on_curve') == 'b23p': p = T.b23p(t)
+        import scipy.optimize as so
+        real_fsolve = so.fsolve
+        if fn == 'tsat':
+            # fsolve is outside the claim (only the range test is): same stub as in the symbolic run
+            so.fsolve = lambda f, x0, *a, **k: x0
         try:
             if fn == 'cowat': r = T.cowat(t, p, True)
             elif fn == 'supst': r = T.supst(t, p, True)
@@ -50,8 +55,10 @@ def replay(d):
             else: r = T.tsat(p, True)
         except Exception as ex:
             inside = in_range(T, fn, t, p)
-            return (d['expect'] == 'raises' or inside,
+            return (type(ex).__name__ in d.get('exc', type(ex).__name__) if d['expect'] == 'raises' else inside,
                     '%s(t=%r, p=%r, bounds=True) raises %s: %s (state %s the stated range)' % (fn, t, p, type(ex).__name__, ex, 'inside' if inside else 'outside'))
+        finally:
+            so.fsolve = real_fsolve
         none = r is None or (isinstance(r, tuple) and all(x is None for x in r))
         inside = in_range(T, fn, t, p)
         msg = '%s(t=%r, p=%r, bounds=True) returns %s; state is %s the stated range' % (fn, t, p, 'None' if none else 'a value', 'inside' if inside else 'outside')
